@@ -5,6 +5,8 @@ use serde_json::Value;
 
 pub mod c01;
 pub mod c02;
+pub mod c12;
+pub mod util;
 
 pub type RunFn = fn(&mut Ctx);
 pub type ReplayFn = fn(&mut Ctx, &Value);
@@ -12,6 +14,7 @@ pub type ReplayFn = fn(&mut Ctx, &Value);
 pub const REGISTRY: &[(&str, RunFn, ReplayFn)] = &[
     ("C01", c01::run, c01::replay),
     ("C02", c02::run, c02::replay),
+    ("C12", c12::run, c12::replay),
 ];
 
 pub fn find(id: &str) -> Option<(RunFn, ReplayFn)> {
